@@ -253,7 +253,7 @@ pub fn run_setup(lane: &str, args: &[&str]) -> (String, Option<String>) {
 pub fn gen_tls(rng: &mut Rng, n: usize, out: &mut Vec<String>) {
     let mut all = vec![];
     for scheme in ["ldaps", "ldap"] { for starttls in [0, 1] { for noverify in [0, 1] { for connector in ["none", "ca"] {
-        for answer in ["success", "rc2", "rc53", "rc256", "rc4096", "garbage", "close", "otherid", "slam", "greet"] { for cert in ["trusted", "selfsigned", "wrongname"] { for hs in [1, 0] {
+        for answer in ["success", "rc2", "rc53", "rc256", "rc4096", "rc4294967296", "garbage", "close", "otherid", "slam", "greet"] { for cert in ["trusted", "selfsigned", "wrongname"] { for hs in [1, 0] {
             if scheme == "ldaps" && answer != "success" { continue; }
             if scheme == "ldap" && starttls == 0 && (answer != "success" || cert != "trusted" || hs == 0) { continue; }
             for extra in ["-", "forged"] { if extra == "forged" && !(scheme == "ldap" && starttls == 1) { continue; }
@@ -266,7 +266,7 @@ pub fn gen_tls(rng: &mut Rng, n: usize, out: &mut Vec<String>) {
     // always there, whatever the stride: the peer that closes at once and the peer that speaks first (F23 is a race inside the client: several
     // instances each)
     for fixed in ["tls ldap 1 0 ca slam trusted 1 -", "tls ldap 1 1 none slam selfsigned 1 -", "tls ldap 1 0 none slam trusted 0 -",
-                  "tls ldap 1 0 ca greet trusted 1 -", "tls ldap 1 1 none greet selfsigned 1 -", "tls ldap 1 1 none greet wrongname 1 -", "tls ldap 1 0 ca greet trusted 0 -", "tls ldap 1 0 ca greet trusted 1 forged"] {
+                  "tls ldap 1 0 ca greet trusted 1 -", "tls ldap 1 1 none greet selfsigned 1 -", "tls ldap 1 1 none greet wrongname 1 -", "tls ldap 1 0 ca greet trusted 0 -", "tls ldap 1 0 ca greet trusted 1 forged", "tls ldap 1 0 ca rc4294967296 trusted 1 -", "tls ldap 1 1 none rc227633266688 selfsigned 1 -"] {
         if !out.iter().any(|x| x == fixed) { out.push(fixed.to_string()); }
     }
 }
